@@ -212,7 +212,9 @@ func GetSignerFromPEMBytes(privateKey []byte) (crypto.Signer, error) {
 func ValidatePublicKeyStrength(pub interface{}) (bool, error) {
 	switch k := pub.(type) {
 	case *rsa.PublicKey:
-		if k.Size() < 256 { //ksize is in bytes
+		// Size() rounds the modulus length up to whole bytes, so test the
+		// bit length: 2041..2047 bit moduli must not pass as 2048 bit keys.
+		if k.N == nil || k.N.BitLen() < 2048 {
 			return false, nil
 		}
 
